@@ -7,6 +7,7 @@ def run(tier, seed, which="C08"):
     V = kv.Verdict("C08", tier, seed)
     wd = kv.workdir("c08")
     rng = random.Random(seed)
+    kv.mc_aligner(V, wd, "c08", tier)
     groups = []
 
     def add(gid, s, k, ty, threads):
